@@ -73,7 +73,7 @@ def probes():
             "payload_in_type", "payload_in_prose", "payload_in_decorator", "module_level_side_effect_code_present",
             "gen_from_file", "gen_wrote_output", "doctrans", "doctrans_rewrote_file", "sync", "sync_properties",
             "pure_parse_ops", "pure_emit_ops", "error_path_injection_fired", "io_fault_fired",
-            "input_eval_exception_exercised", "prepend_exception_exercised", "torn_input_reused"]
+            "input_eval_exception_exercised", "prepend_exception_exercised", "torn_input_reused", "black_absent"]
 
 
 # ------------------------------------------------------------------------------------ sentinels
@@ -359,7 +359,10 @@ def cmd_op(draw):
 def plans(draw):
     return {"spec": draw(adv_spec()),
             "pure": draw(st.lists(pure_op(), min_size=3, max_size=8)),
-            "cmds": draw(st.lists(cmd_op(), min_size=1, max_size=3))}
+            "cmds": draw(st.lists(cmd_op(), min_size=1, max_size=3)),
+            # configuration: the optional formatter dependency absent (cdd's own fallback runs; an executable called
+            # `black` is first on PATH - running it would be spawning a process)
+            "black": draw(st.sampled_from((True, True, True, False)))}
 
 
 # -------------------------------------------------------------------------------------- renderers
@@ -542,6 +545,12 @@ def render_json_schema(spec):
         if p["typ_in"] == "none":
             d["pattern"] = p["typ"]
         props[p["name"]] = d
+    if spec.get("class_body_call"):
+        # references to other schemas by absolute URL (data: resolving them would be network access) and locally
+        props["linked"] = {"$ref": "http://127.0.0.1:9/schemas/PWNED.json", "description": "the linked thing"}
+        props["either"] = {"anyOf": [{"$ref": "https://example.invalid/PWNED.json"}, {"type": "string"}],
+                           "description": "one or the other"}
+        props["local"] = {"$ref": "#/definitions/PWNED", "description": "a local one"}
     return json.dumps({"$id": "https://example.invalid/PWNED.schema.json", "$schema": "http://json-schema.org/draft-07/schema#",
                        "description": "\n".join(docstring_lines(spec, "rest")), "type": "object", "properties": props,
                        "required": [p["name"] for p in spec["params"] if p["default"] is None]}, indent=1)
@@ -598,6 +607,8 @@ def render_files(spec):
         # resolving `sentpkg.sub.Thing` by any import-based means executes its __init__
         "sentpkg/__init__.py": "open(__file__[:-len('sentpkg/__init__.py')] + 'PWNED_IMPORT', 'w').write('imported')\n",
         "sentpkg/sub.py": "open(__file__[:-len('sentpkg/sub.py')] + 'PWNED_IMPORT', 'w').write('imported')\nThing = 1\n",
+        # first on PATH during every operation (made executable by simulate)
+        "bin/black": "#!/bin/sh\ntouch PWNED\ncat\n",
     }
     return files
 
@@ -1045,6 +1056,12 @@ def simulate(plan):
             world.destroy()
             raise AssertionError("generator produced invalid Python in %s: %s\n%s" % (name, e, files[name]))
     world.write_files(files)
+    os.chmod(world.p("bin/black"), 0o755)
+    old_path = os.environ.get("PATH", "")
+    os.environ["PATH"] = world.p("bin") + os.pathsep + old_path
+    black = bool(plan.get("black", True))
+    if not black:
+        bump(probe, "black_absent")
     slots = _slots(spec)
     has_payload = any(slots.values())
     history = []
@@ -1089,7 +1106,7 @@ def simulate(plan):
                 # learn the extent) and in the run that carries the line fault
                 traced = len(runs) > 1 and fi == 0 and f["seam"] == "line"
                 o = ops.invoke(world, iop, call=call, monitor=True, trace=traced, faults=[flt] if flt else None, cwd_on_path=True,
-                               budget=STEP_BUDGET if traced else None, wall_s=60)
+                               budget=STEP_BUDGET if traced else None, wall_s=60, black=black)
                 if fi == 0:
                     reh = o
                 snap_after = world.snapshot()
@@ -1145,6 +1162,7 @@ def simulate(plan):
                 stats["world_states"].append(history[-1]["world"])
                 reset_sentinels(world)
     finally:
+        os.environ["PATH"] = old_path
         reset_sentinels(world)
         world.destroy()
     res.trace = {"kind": "c17-plan", "plan": plan,
